@@ -1,0 +1,21 @@
+//go:build verif
+
+// Contracts for govc (comment-only file; see /verif/DESIGN.md section 3).
+package ecdsa
+
+// Textbook ECDSA verification (C01, C16) in the abstract group: with r = x(R),
+//   accept  <=>  r != 0  and  s != 0  and  s^-1 * (m*G + r*X) == R ,   m = fromhash(hash).
+//@ func (Signature).Verify
+//@   nopanic[C05]
+//@   requires sig.R != nil && sig.S != nil && X != nil
+//@   modifies nothing
+//@   allocates
+//@   ensures[C01,C16] result == (xcoord(ptval(sig.R)) != s_zero() && scval(sig.S) != s_zero() && act(s_inv(scval(sig.S)), p_add(act(fromhash(bval(hash)), gen()), act(xcoord(ptval(sig.R)), ptval(X)))) == ptval(sig.R))
+//@   ensures[C01,C16] scval(sig.S) == old(scval(sig.S)) && ptval(sig.R) == old(ptval(sig.R)) && ptval(X) == old(ptval(X))
+
+//@ func EmptySignature
+//@   nopanic[C05]
+//@   requires group != nil
+//@   modifies nothing
+//@   allocates
+//@   ensures result.R != nil && result.S != nil
